@@ -4,6 +4,7 @@ EXTENDS Store, Json
 
 MC_WVals == {{"A"}, {"B"}, {"#I"}, {"#BAD"}}
 MC_WValsSmall == {{"A"}, {"B"}, {"#BAD"}}
+MC_WValsStream == {{"A"}, {"#T"}}          \* a dictionary and a new stream: written over the base objects (also over the base stream)
 AsBuilt == {"repeated_update_merges"}      \* the recorded (unrepaired) deviations, see known_findings.json
 
 ObsJson(f) == [i \in Ids |-> f[i]]
